@@ -92,7 +92,7 @@ def candidates(case, protect=('knobs', 'seed', 'prop', 'exc_pool')):
     # 2. drop list elements (operations, tasks, pool entries, spec children, container items)
     nodes = list(_paths(case))
     for path, node in nodes:
-        if path and path[0] in protect:
+        if path and (path[0] in protect or 'knobs' in path or 'classes' in path):
             continue
         if isinstance(node, list) and not _is_spec(node):
             n = len(node)
@@ -106,7 +106,7 @@ def candidates(case, protect=('knobs', 'seed', 'prop', 'exc_pool')):
                 yield _del(case, path + (k,))
     # 3. replace a spec node by one of its sub-specs / a value node by one of its sub-values
     for path, node in nodes:
-        if not path or path[0] in protect:
+        if not path or path[0] in protect or 'knobs' in path or 'classes' in path:
             continue
         if _is_spec(node):
             for sub in _sub_specs(node):
@@ -119,7 +119,7 @@ def candidates(case, protect=('knobs', 'seed', 'prop', 'exc_pool')):
             yield _set(case, path, 0)
     # 4. shrink scalars
     for path, node in nodes:
-        if not path or path[0] in protect:
+        if not path or path[0] in protect or 'knobs' in path or 'classes' in path:
             continue
         if isinstance(node, bool):
             continue
